@@ -355,6 +355,7 @@ def run_lint(repo, tier='quick', rule='E6n'):
     if lint is None or parse is None:
         raise Unrecognised(rule, 'lint_script / parse_script not found', mmod.rel)
     li = LintInterp(repo, mmod, rule)
+    pending = []
     pi = ModelParseInterp(repo, pmod, rule)
     models = [(d, m, 'jump') for d, m in jump_models().items()]
     for d, text in STRUCTURED.items():
@@ -393,13 +394,15 @@ def run_lint(repo, tier='quick', rule='E6n'):
                 unknown.append(w)
             elif c[0] != 'other':
                 got.add(c)
-        if unknown:
-            raise Unrecognised(rule, f'warning text not understood: {unknown[0]!r}', mmod.rel)
-        want = reference_facts(model)
         if kind == 'include':
+            # a shipped include must be lint-clean: any warning at all, of whatever kind, is a deviation
             if r1[1]:
                 problems.append(('include', f'{desc} is not lint-clean: {r1[1][:3]}'[:400]))
             continue
+        if unknown:
+            pending.append(f'warning text not understood: {unknown[0]!r}')
+            continue
+        want = reference_facts(model)
         label_cats = ('unknown-label', 'unused-label', 'label-redefinition')
         if kind == 'structured' and any(c[0] in label_cats for c in got):
             problems.append(('structured', f'{desc}: the lowered code gets label warnings {[w for w in r1[1] if "label" in w.lower()][:3]}'[:400]))
@@ -408,4 +411,6 @@ def run_lint(repo, tier='quick', rule='E6n'):
             problems.append(('spurious', f'model "{desc}": warning {c[0]} for {c[2]!r}' + (f' in function {c[1]!r}' if c[1] else '') + ' is not justified by the model'))
         for c in sorted((c for c in want - got if c[0] in EXACT), key=repr):
             problems.append(('missing', f'model "{desc}": no {c[0]} warning for {c[2]!r}' + (f' in function {c[1]!r}' if c[1] else '')))
+    if pending and not problems:
+        raise Unrecognised(rule, pending[0], mmod.rel)
     return n, problems
